@@ -3,7 +3,7 @@
    (3) the demonstration passes without it.  Results go to seeded/<id>/meta.json."""
 import json, os, subprocess, sys, shutil, time
 ROOT = "/verif"
-WT = "/root/scratch/confirm"
+WT = os.environ.get("CONFIRM_WT", "/root/scratch/confirm")
 BASE = sys.argv[1] if len(sys.argv) > 1 else "2717fa1"
 ids = sys.argv[2:] or sorted(os.listdir(os.path.join(ROOT, "seeded")))
 env = dict(os.environ, CARGO_TARGET_DIR=WT + "-target", CARGO_NET_OFFLINE="true")
